@@ -6,7 +6,7 @@
     shared / weak pointer API (and stray bitwise copies), each call under an
     arbitrary allocator oracle.  [owners s d] / [weaks s d] count the
     well-formed shared (or array) / weak objects referring to block [d]. *)
-From Cstl Require Import Prelude AllocModel MemModel MemProofs.
+From Cstl Require Import Prelude AllocModel MemModel ArrayViewModel MemProofs ArrayViewProofs.
 Local Open Scope N_scope.
 
 Section C05.
@@ -146,6 +146,18 @@ Section C05.
   Proof. intros R. apply unique_alloc_refused. apply (reach_inv ks ex s R). Qed.
 End C05.
 
+(** no_leak, end to end (pointer and array objects in one pool): from any
+    reachable state, resetting every object in turn (a stray copy can only be
+    re-initialised) returns normally and leaves no live block *)
+Theorem C05_reset_all_leaks_nothing ks ex ok s :
+  2 * N.of_nat (length ks) < 4294967296 ->
+  reach (lstep false) (st_init ks ex) s ->
+  exists s', cleanup ok false s = Done s' [] /\ live (al s') = [].
+Proof.
+  intros LEN R. destruct (reach_sys ks ex s LEN R) as (I & A & L & _).
+  apply cleanup_no_leak; auto. rewrite L. exact LEN.
+Qed.
+
 (** Non-vacuity: a concrete history over 3 shared, 2 weak and 2 unique objects
     (second allocation's inner request refused) reaches the expected event log:
     clear then free of the memory when the last owner goes, bookkeeping block
@@ -176,3 +188,4 @@ Print Assumptions C05_unique_iff.
 Print Assumptions C05_no_leak.
 Print Assumptions C05_shared_alloc_refused.
 Print Assumptions C05_unique_alloc_refused.
+Print Assumptions C05_reset_all_leaks_nothing.
